@@ -152,7 +152,7 @@ theorem case_d3 (hs : Sim c p) (hg : Guarded c t) (hpc : (c.loc t).pc = .d3)
     cases h
     have := sim_claim (w := true) (t := t) (k := (c.loc t).key) (r := ch.fresh)
       (l' := { (c.loc t) with pc := .d4, held := (⟨ch.fresh, (c.loc t).key, .w, true⟩ : Hold) :: (c.loc t).held }) hs (by simp [hpc]) (by simp [holdsOf, hpc])
-      (by simp [waitingOf, hpc]) (by simp [committingOf, hpc]) (hg.2.2.2 hpc) hfresh (({} : Mu).lock t)
+      (by simp [waitingOf, hpc]) (by simp [committingOf, hpc]) (hg.2.2.2.1 hpc) hfresh (({} : Mu).lock t)
       (by simp [modeOf, owns, Mu.lock]) (wf_fresh_lock t)
       (by simp [modeOf]) (by simp [holdsOf]) (by simp [extra]) (by simp [Facts])
       (by simp [absTx, holdsOf, waitingOf, committingOf])
